@@ -38,6 +38,8 @@ var reqHosts = []string{
 	"sub.b.example.com", "t.sub.b.example.com", "x.y.z.example.com", "w.y.z.example.com", "w.z.example.com",
 	"v.w.z.example.com", ".example.com", "a..example.com", "localhost", "x.localhost", "10.0.0.1", "x.com", "x.y.com",
 	"aexample.com", "xa.example.com", "",
+	"a.b.c.d.e.f.g.example.com", "a.b.c.d.e.f.g.h.x.a.example.com", "1.2.3.4.5.6.7.8.9.10.example.org", "a.b.c.d.e.f.example.com",
+	"p.q.r.s.t.u.v.w.com",
 }
 
 var regLocations = []string{"", "", "/", "/a", "/ab", "/a/b", "/A", "/a/", "/abc/d", "/b"}
@@ -48,6 +50,21 @@ var reqUsers = []string{"", "", "u1", "u2", "u3"}
 type triple struct{ d, l, u string }
 
 func lowerASCII(s string) string { return strings.ToLower(s) }
+
+// deepHost prefixes suffix with labels so that the host has 8 to 12 labels in all: the wildcard walk
+// has to go through every one of them before it reaches a short pattern such as *.example.com
+func deepHost(g *hx.Gen, suffix string) string {
+	have := strings.Count(suffix, ".") + 1
+	want := 8 + g.Intn(5)
+	var ls []string
+	for i := have; i < want; i++ {
+		ls = append(ls, g.Pick([]string{"a", "b", "x", "k9", "w", "Q"}))
+	}
+	if len(ls) == 0 {
+		return "z." + suffix
+	}
+	return strings.Join(ls, ".") + "." + suffix
+}
 
 // reqFor derives a request that is likely to hit (or narrowly miss) one of the live routes.
 func reqFor(g *hx.Gen, live []triple, hosts []string) (h, p, u string) {
@@ -62,6 +79,9 @@ func reqFor(g *hx.Gen, live []triple, hosts []string) (h, p, u string) {
 		h = g.Pick([]string{"r", "s.t", "a", "x", "W"}) + t.d[1:]
 		if g.Chance(0.1) {
 			h = t.d[2:]
+		}
+		if g.Chance(0.3) {
+			h = deepHost(g, t.d[2:])
 		}
 	default:
 		h = t.d
@@ -438,6 +458,7 @@ func runRouter(cfg *hx.RunCfg) error {
 			"Definition NUSERSPECIFIC := Eval vm_compute in sum_cases (router_counter 5) cases.\nPrint NUSERSPECIFIC.\n" +
 			"Definition NUSERFALLBACK := Eval vm_compute in sum_cases (router_counter 6) cases.\nPrint NUSERFALLBACK.\n" +
 			"Definition NLONGLOC := Eval vm_compute in sum_cases (router_counter 7) cases.\nPrint NLONGLOC.\n" +
+			"Definition NDEEPWILD := Eval vm_compute in sum_cases (router_counter 8) cases.\nPrint NDEEPWILD.\n" +
 			"Definition NVIOL := Eval vm_compute in count_if (fun c => negb (C06_holds c)) cases.\nPrint NVIOL.\n",
 	}
 	dist := map[string]int{}
